@@ -47,6 +47,78 @@ func ruleX9(p *Prog, r *Report) {
 			"every field of the copy is assigned",
 			"the copy built here never assigns field(s) %s: the copy silently gets the zero value where the source has content")
 	}
+	// a copy that starts from a constructor of the receiver's own type: every field the function does not assign
+	// afterwards keeps the constructor's default - for a field that the source carries that is a silent reset
+	for _, f := range funcs {
+		if p.IsTestFile(f.Pos()) || !strings.HasPrefix(strings.ToLower(f.Name()), "copy") || len(f.Params) == 0 {
+			continue
+		}
+		rt := rootNamed(f.Params[0].Type())
+		if rt == nil {
+			continue
+		}
+		st, ok := rt.Underlying().(*types.Struct)
+		if !ok {
+			continue
+		}
+		eachInstr(f, func(in ssa.Instruction) {
+			c, ok := in.(*ssa.Call)
+			if !ok {
+				return
+			}
+			g := c.Call.StaticCallee()
+			if g == nil || g.Pkg != p.RootSSA || rootNamed(c.Type()) != rt || g == f {
+				return
+			}
+			if _, isPtr := c.Type().Underlying().(*types.Pointer); !isPtr {
+				return
+			}
+			n++
+			assigned := map[string]bool{}
+			for _, ref := range *c.Referrers() {
+				if fa, ok := ref.(*ssa.FieldAddr); ok {
+					_, nm := structFieldName(fa.X.Type(), fa.Field)
+					for _, r2 := range *fa.Referrers() {
+						if s2, ok := r2.(*ssa.Store); ok && s2.Addr == ssa.Value(fa) {
+							assigned[nm] = true
+						}
+					}
+				}
+			}
+			// fields the constructor receives from a non-constant argument count as assigned by the caller
+			if _, lit, _, ok := constructorLiteral(c); ok {
+				for i := 0; i < st.NumFields(); i++ {
+					nm := st.Field(i).Name()
+					fv := litField(g, lit, nm)
+					if fv == nil {
+						continue
+					}
+					if prm, isP := canon(fv).(*ssa.Parameter); isP {
+						for pi, q := range g.Params {
+							if q == prm && pi < len(c.Call.Args) {
+								if _, isConst := canonConv(c.Call.Args[pi]).(*ssa.Const); !isConst {
+									assigned[nm] = true
+								}
+							}
+						}
+					}
+				}
+			}
+			var missing []string
+			for i := 0; i < st.NumFields(); i++ {
+				nm := st.Field(i).Name()
+				if assigned[nm] {
+					continue
+				}
+				if _, ok := copyZeroOK[rt.Obj().Name()+"."+nm]; ok {
+					continue
+				}
+				missing = append(missing, nm)
+			}
+			sort.Strings(missing)
+			r.Decide(len(missing) == 0, R, "copy-from-constructor:"+p.Name(f)+":"+rt.Obj().Name(), p.InstrPos(in), "every field of the constructed copy is assigned from the source (or handed to the constructor)", "the copy starts from "+g.Name()+"(..) and never assigns field(s) "+strings.Join(missing, ", ")+": the copy keeps the constructor's default where the source has content (a nested collision group copied with the level of a root list)")
+		})
+	}
 	r.Floor(R, "structs built by copy functions", 6, n)
 }
 
